@@ -75,6 +75,12 @@ def main():
     res.append(semantic('closed2lean.py','shirokov adjU * U',[(L,"Uk = U * adjU","Uk = adjU * U")]))
     res.append(semantic('closed2lean.py','shirokov k / N',[(L,"Ck = (N / k) * Uk.value[0]","Ck = (k / N) * Uk.value[0]")]))
     res.append(semantic('closed2lean.py','shirokov range(1, N+1)',[(L,"for k in range(1, N):\n                Ck","for k in range(1, N + 1):\n                Ck")]))
+    MVF='clifford/_multivector.py'
+    res.append(harmless('printer2lean.py','__str__ coeff*sign',[(MVF,"abs_coeff = sign*coeff","abs_coeff = coeff*sign")]))
+    res.append(semantic('printer2lean.py','__str__ seps swapped',[(MVF,"sep = seps[1]\n                    sign = -1","sep = seps[0]\n                    sign = -1")]))
+    res.append(semantic('printer2lean.py','__str__ grade == 1',[(MVF,"if grade == 0:\n                    # scalar","if grade == 1:\n                    # scalar")]))
+    res.append(semantic('printer2lean.py','__str__ first minus lost',[(MVF,"seps = ('', '-')","seps = ('', '')")]))
+    res.append(semantic('printer2lean.py','__str__ missing paren',[(MVF,"'%s%s(%s^%s)'","'%s%s(%s^%s'")]))
     res.append(semantic('closed2lean.py','n=4 grades (2,4)',[(L,"mv_mul_mv_conj(3, 4)","mv_mul_mv_conj(2, 4)")]))
     res.append(semantic('closed2lean.py','n=5 factor 3',[(L,"2 * mv_combo_op(1, 4)","3 * mv_combo_op(1, 4)")]))
     res.append(semantic('loops2lean.py','start a = bitmap_a',[(H,"a = bitmap_a >> 1","a = bitmap_a")]))
